@@ -56,6 +56,126 @@ def _reads_table(e: ast.AST) -> bool:
     return any(isinstance(x, ast.Name) and x.id == TABLE for x in ast.walk(e))
 
 
+
+T_KEY = "global<labrea.runtime._RUNTIMES>"
+LOCK_KEY = "global<labrea.runtime.lock>"
+OWN_THREAD = "call:threading.current_thread"
+TABLE_WRITES = {"setdefault", "pop", "__setitem__", "update", "clear", "popitem", "__delitem__"}
+
+
+class Access:
+    __slots__ = ("entry", "path", "event", "method", "key", "value", "write", "fn")
+
+    def __init__(self, entry, path, event, method, key, value, write, fn):
+        self.entry, self.path, self.event, self.method, self.key, self.value, self.write, self.fn = entry, path, event, method, key, value, write, fn
+
+
+def _module_refs(m, name: str) -> List[ast.AST]:
+    return [n for n in ast.walk(m.tree) if (isinstance(n, ast.Name) and n.id == name) or (isinstance(n, ast.Attribute) and n.attr == name)]
+
+
+def _entries(run: Run):
+    """Entry points of labrea/runtime.py: every function or method that is not a private
+    helper only called from inside the module (those are analysed inlined into their callers)."""
+    m, rt = _rt(run)
+    cands = []
+    for q, fi in run.repo.functions.items():
+        if fi.module is m:
+            cands.append((q, fi.node, None))
+    for ci in run.repo.classes.values():
+        if ci.module is m:
+            for n, fn in ci.methods.items():
+                cands.append((f"{ci.qualname}.{n}", fn, ci))
+    out = []
+    for q, fn, ci in cands:
+        short = q.rsplit(".", 1)[-1]
+        private = short.startswith("_") and not short.startswith("__")
+        if private:
+            refs = [r for r in _module_refs(m, short) if not (isinstance(r, ast.Name) and isinstance(r.ctx, ast.Store))]
+            if refs:
+                continue
+        out.append((q, fn, ci))
+    return out
+
+
+SELF_KEYS = ("self", "Child(<self>)")
+
+
+def _fn_paths(run: Run, fn, ci):
+    """Paths of a function of labrea/runtime.py; methods are analysed with their class so that
+    private methods they call through self are inlined."""
+    m, _ = _rt(run)
+    from .interp import analyse_function
+    decos = [ast.unparse(d) for d in fn.decorator_list]
+    if ci is not None and "staticmethod" not in decos and "classmethod" not in decos:
+        return analyse_function(Ctx(run.repo), m, fn, cls=ci)
+    return analyse_function(Ctx(run.repo), m, fn)
+
+
+def _accesses(run: Run) -> List[Access]:
+    """Every access of the thread -> runtime table on every path of every entry point
+    (helpers inlined), with the key and the stored value as terms."""
+    if "rt_accesses" in run._rule_cache:
+        return run._rule_cache["rt_accesses"]
+    m, rt = _rt(run)
+    out: List[Access] = []
+    for q, fn, ci in _entries(run):
+        for p in _fn_paths(run, fn, ci):
+            for e in p.events:
+                if e.kind == "call" and e.target is not None and e.target.key() == T_KEY:
+                    key = e.args[0] if e.args else None
+                    val = e.args[1] if e.text in ("setdefault", "__setitem__") and len(e.args) > 1 else None
+                    out.append(Access(q, p, e, e.text, key, val, e.text in TABLE_WRITES, fn))
+                elif e.kind == "store" and len(e.args) == 2 and e.args[0].key() == T_KEY:
+                    idx = e.args[1]
+                    key = idx.args[0] if getattr(idx, "head", "") == "index" and idx.args else None
+                    out.append(Access(q, p, e, "__setitem__", key, e.target, True, fn))
+    run._rule_cache["rt_accesses"] = out
+    return out
+
+
+def _owner_of(run: Run, line: int, default: str) -> str:
+    """Qualified name of the innermost function of labrea/runtime.py containing the line."""
+    m, _ = _rt(run)
+    best = None
+    for mm, cls, fn, q in iter_functions(run.repo):
+        if mm is m and fn.lineno <= line <= (fn.end_lineno or fn.lineno):
+            if best is None or fn.lineno >= best[0]:
+                best = (fn.lineno, q)
+    return best[1] if best else default
+
+
+def _maybe_none_term(t, acc: Access) -> Optional[str]:
+    """Reason why the stored term may be None on this path (None = it cannot)."""
+    from .interp import Frame
+    from .terms import Const, New, Sym
+    if t is None:
+        return "unknown value"
+    k = t.key()
+    at = Frame.atoms(acc.path.conds)
+    if at.get(f"cmp:Is({k},Const(None))") is False:
+        return None
+    if k in SELF_KEYS or isinstance(t, New) or k.startswith("new:Runtime(") or k.startswith("call:handle("):
+        return None
+    if isinstance(t, Const):
+        return "literal None" if t.v is None else None
+    if isinstance(t, Sym):
+        if t.head in ("call:get", "call:setdefault") and len(t.args) >= 3:
+            return _maybe_none_term(t.args[2], acc)
+        if t.head == "call:get":
+            return f"{k[:60]} is None when the key is absent"
+        if t.head == "call:pop":
+            return f"{k[:60]} may yield a stored None"
+        if t.head == "or" and t.args:
+            return _maybe_none_term(t.args[-1], acc)
+        if not t.args and not t.head.startswith("call"):
+            # a parameter of the entry point: its annotation decides
+            for a in acc.fn.args.args + acc.fn.args.kwonlyargs:
+                if a.arg == t.head:
+                    ann = ast.unparse(a.annotation) if a.annotation else ""
+                    return None if ann and "Optional" not in ann and "None" not in ann else f"parameter {t.head} may be None"
+    return f"{k[:60]} has unknown nullability"
+
 # ------------------------------------------------------------------ R-RE
 def rule_RE(run: Run) -> RuleResult:
     res = RuleResult("R-RE")
@@ -67,42 +187,35 @@ def rule_RE(run: Run) -> RuleResult:
     if en is None or ex is None:
         raise AnalysisError("Runtime.__enter__/__exit__ not found")
     f = m.relpath
-    amap = astu.single_assign_map(en)
-    tn = _thread_names(en)
-    scalar = []
-    pushes = []
-    for n in astu.walk_no_nested(en):
-        if isinstance(n, ast.Assign):
-            v = astu.expand_locals(n.value, amap)
-            for t in n.targets:
-                if isinstance(t, ast.Attribute) and isinstance(t.value, ast.Name) and t.value.id == "self" and _reads_table(v):
-                    scalar.append((n, t.attr))
-        if isinstance(n, ast.Call) and isinstance(n.func, ast.Attribute) and n.func.attr in ("append", "appendleft") and n.args:
-            v = astu.expand_locals(n.args[0], amap)
-            if _reads_table(v):
-                pushes.append(n)
-    per_thread = False
-    for p_ in pushes:
-        recv = ast.unparse(astu.expand_locals(p_.func.value, amap))
-        if "current_thread" in recv or any(t in recv for t in tn) or "local" in recv:
-            per_thread = True
-    ok = not scalar and bool(pushes) and per_thread
-    if scalar:
-        d = f"__enter__ overwrites self.{scalar[0][1]} with the runtime to restore (line {scalar[0][0].lineno})"
-    elif not pushes:
-        d = "__enter__ does not push the previous runtime onto a stack"
-    elif not per_thread:
-        d = "the restore stack is not keyed by the entering thread"
-    else:
-        d = "previous runtime pushed on a per-thread stack at each entry"
+    eps = [p for p in _fn_paths(run, en, rt) if p.status == "ret"]
+    if not eps:
+        raise AnalysisError("Runtime.__enter__ has no returning path")
+    d = "previous runtime pushed on a per-thread stack at each entry"
+    ok = True
+    for p in eps:
+        scalar = [e for e in p.events if e.kind == "store" and len(e.args) == 2 and e.args[0].key() in SELF_KEYS and e.target is not None and T_KEY in e.target.key()]
+        pushes = [e for e in p.events if e.kind == "call" and e.text in ("append", "appendleft") and e.args and T_KEY in e.args[0].key()]
+        if scalar:
+            ok, d = False, f"__enter__ overwrites {scalar[0].text} with the runtime to restore (line {scalar[0].line})"
+        elif not pushes:
+            ok, d = False, "__enter__ does not push the previous runtime onto a stack"
+        elif not all(OWN_THREAD in e.target.key() or "local" in e.target.key() for e in pushes):
+            ok, d = False, "the restore stack is not keyed by the entering thread"
     res.add("labrea.runtime.Runtime.__enter__:restore state is per entry and per thread", ok, f, en.lineno, d, nec)
     # __exit__ restores what that entry pushed
-    pops = [c for b in astu.substituted_helper_bodies(ex, rt) for c in astu.calls_in(b) if isinstance(c.func, ast.Attribute) and c.func.attr == "pop" and TABLE not in ast.unparse(c.func.value)]
-    reads_scalar = [n for n in astu.walk_no_nested(ex) if isinstance(n, ast.Attribute) and isinstance(n.value, ast.Name) and n.value.id == "self"
-                    and any(n.attr == s[1] for s in scalar) and isinstance(n.ctx, ast.Load)]
-    ok2 = bool(pops) and not reads_scalar
-    res.add("labrea.runtime.Runtime.__exit__:restores the runtime saved by the matching entry", ok2, f, ex.lineno,
-            "pops the per-entry stack" if ok2 else ("reads the scalar attribute written by __enter__" if reads_scalar else "does not pop a per-entry stack"), nec)
+    xps = [p for p in _fn_paths(run, ex, rt) if p.status == "ret"]
+    ok2 = bool(xps)
+    d2 = "pops the per-entry stack"
+    for p in xps:
+        pops = [e for e in p.events if e.kind == "call" and e.text == "pop" and e.target is not None and e.target.key() != T_KEY]
+        if not pops:
+            ok2, d2 = False, "does not pop a per-entry stack"
+        elif not all(OWN_THREAD in e.target.key() or "local" in e.target.key() for e in pops):
+            ok2, d2 = False, "the stack it pops is not the entering thread's"
+        for e in p.events:
+            if e.kind == "store" and len(e.args) == 2 and e.args[0].key() == T_KEY and not (e.target is not None and e.target.key().startswith("call:pop(")):
+                ok2, d2 = False, f"restores {e.target.key()[:60] if e.target is not None else None}, not the value popped from the per-entry stack"
+    res.add("labrea.runtime.Runtime.__exit__:restores the runtime saved by the matching entry", ok2, f, ex.lineno, d2, nec)
     return res
 
 
@@ -166,27 +279,22 @@ def rule_NR(run: Run) -> RuleResult:
     m, rt = _rt(run)
     nec = ("the thread -> runtime table must never hold None: current_runtime() uses setdefault and hands "
            "the stored None to Request.run (AttributeError on the next request in that thread) (C14)")
-    n = 0
-    for mm, cls, fn, q in iter_functions(run.repo):
-        if mm is not m:
+    sites = {}
+    for a in _accesses(run):
+        if not a.write or a.method in ("pop", "popitem", "clear", "__delitem__"):
             continue
-        for s in astu.walk_no_nested(fn):
-            stores = []
-            if isinstance(s, ast.Assign):
-                for t in s.targets:
-                    if isinstance(t, ast.Subscript) and isinstance(t.value, ast.Name) and t.value.id == TABLE:
-                        stores.append((s, s.value))
-            if isinstance(s, ast.Call) and isinstance(s.func, ast.Attribute) and isinstance(s.func.value, ast.Name) and s.func.value.id == TABLE and s.func.attr in ("setdefault", "__setitem__") and len(s.args) == 2:
-                stores.append((s, s.args[1]))
-            if isinstance(s, ast.Call) and isinstance(s.func, ast.Attribute) and isinstance(s.func.value, ast.Name) and s.func.value.id == TABLE and s.func.attr == "update":
-                stores.append((s, ast.Constant(value=None)))
-            for node, val in stores:
-                n += 1
-                why = _maybe_none(val, fn, node, rt)
-                res.add(f"{q}:stores {ast.unparse(val)[:40]} into {TABLE}", why is None, m.relpath, node.lineno,
-                        "stored value cannot be None" if why is None else f"stored value may be None: {why}", nec)
-    if n < 3:
-        raise AnalysisError(f"only {n} stores into {TABLE} found (4 confirmed by hand)")
+        if a.method == "update":
+            why = "bulk update with unknown values"
+        else:
+            why = _maybe_none_term(a.value, a)
+        k = (_owner_of(run, a.event.line, a.entry), a.event.line)
+        if k not in sites or (why is not None and sites[k][0] is None):
+            sites[k] = (why, a)
+    for (entry, line), (why, a) in sorted(sites.items()):
+        res.add(f"{entry}:stores {a.value.key()[:40] if a.value is not None else '?'} into {TABLE}", why is None, m.relpath, line,
+                "stored value cannot be None" if why is None else f"stored value may be None: {why}", nec)
+    if len(sites) < 3:
+        raise AnalysisError(f"only {len(sites)} stores into {TABLE} found (4 confirmed by hand)")
     return res
 
 
@@ -288,8 +396,36 @@ def rule_HI(run: Run) -> RuleResult:
     res.add("labrea.runtime.handle:derives from the current runtime", ok, m.relpath, mh.node.lineno, "", nec)
     for modname, fname in (("labrea.cache", "disabled"), ("labrea.logging", "disabled")):
         fi = run.repo.functions.get(f"{modname}.{fname}")
-        ok = fi is not None and all(isinstance(r.value, ast.Call) and ast.unparse(r.value.func) == "runtime.handle" for r in ast.walk(fi.node) if isinstance(r, ast.Return))
-        res.add(f"{modname}.{fname}:derived via runtime.handle()", ok, fi.module.relpath if fi else "", fi.node.lineno if fi else 0, "", nec)
+        ok, why = fi is not None, "" if fi is not None else "not found"
+        if fi is not None:
+            amap_d = astu.single_assign_map(fi.node)
+
+            def is_handle(e):
+                e = astu.expand_locals(e, amap_d)
+                return isinstance(e, ast.Call) and ast.unparse(e.func) in ("runtime.handle", "handle", "runtime.current_runtime().handle")
+
+            yields = [y for y in astu.walk_no_nested(fi.node) if isinstance(y, (ast.Yield, ast.YieldFrom))]
+            rets = [r for r in astu.walk_no_nested(fi.node) if isinstance(r, ast.Return) and r.value is not None]
+            if yields:
+                # generator-based context manager: the derived runtime must be left on every exit of the block,
+                # i.e. the yield sits inside `with <derived runtime>:` or a try whose finally calls __exit__
+                pm = astu.parent_map(fi.node)
+                for y in yields:
+                    cur, safe = y, False
+                    while id(cur) in pm:
+                        cur = pm[id(cur)]
+                        if isinstance(cur, ast.With) and any(is_handle(i.context_expr) for i in cur.items):
+                            safe = True
+                        if isinstance(cur, ast.Try) and any(isinstance(c_, ast.Call) and isinstance(c_.func, ast.Attribute) and c_.func.attr == "__exit__"
+                                                             for st_ in cur.finalbody for c_ in ast.walk(st_)):
+                            safe = True
+                    if not safe:
+                        ok, why = False, "generator-based context manager: an exception in the block skips the restore of the previous runtime (no with / try-finally around the yield)"
+            elif not rets:
+                ok, why = False, "returns nothing"
+            elif not all(is_handle(r.value) for r in rets):
+                ok, why = False, f"returns {[ast.unparse(r.value)[:40] for r in rets]}"
+        res.add(f"{modname}.{fname}:derived via runtime.handle()", ok, fi.module.relpath if fi else "", fi.node.lineno if fi else 0, why, nec)
     return res
 
 
@@ -304,11 +440,12 @@ def rule_EX(run: Run) -> RuleResult:
     rets = [r for r in astu.walk_no_nested(ex) if isinstance(r, ast.Return) and r.value is not None and not (isinstance(r.value, ast.Constant) and r.value.value in (None, False))]
     res.add("labrea.runtime.Runtime.__exit__:never returns a truthy value", not rets, m.relpath, ex.lineno,
             "no return value" if not rets else f"returns {ast.unparse(rets[0].value)}", nec)
-    ps = [p for p in analyse_method(Ctx(run.repo), rt, "__exit__") if p.status == "ret"]
+    ps = [p for p in _fn_paths(run, ex, rt) if p.status == "ret"]
     ok = bool(ps)
     d = ""
     for p in ps:
-        restores = [e for e in p.events if (e.kind == "store" and e.text.startswith(f"{TABLE}[")) or (e.kind == "call" and e.text == "pop" and e.target is not None and TABLE in e.target.key())]
+        restores = [e for e in p.events if (e.kind == "store" and len(e.args) == 2 and e.args[0].key() == T_KEY)
+                    or (e.kind == "call" and e.text == "pop" and e.target is not None and e.target.key() == T_KEY)]
         if not restores:
             ok = False
             d = f"a path of __exit__ skips the restore (conditions {[c[0] for c in p.conds]})"
@@ -319,9 +456,16 @@ def rule_EX(run: Run) -> RuleResult:
         d = f"restore depends on the exception arguments ({uses_exc[0].id})"
     res.add("labrea.runtime.Runtime.__exit__:every path restores, independent of the exception", ok, m.relpath, ex.lineno, d or f"{len(ps)} paths, all restore", nec)
     en = rt.methods.get("__enter__")
-    ok = any(isinstance(n, ast.Assign) and isinstance(n.targets[0], ast.Subscript) and ast.unparse(n.targets[0].value) == TABLE and ast.unparse(n.value) == "self" for n in ast.walk(en))
-    rs = [ast.unparse(r.value) for r in ast.walk(en) if isinstance(r, ast.Return) and r.value is not None]
-    res.add("labrea.runtime.Runtime.__enter__:installs self for the current thread and returns self", ok and rs == ["self"], m.relpath, en.lineno, f"returns {rs}", nec)
+    eps = _fn_paths(run, en, rt)
+    ok = bool(eps)
+    rs = []
+    for p in eps:
+        rs.append(p.ret.key() if p.status == "ret" and p.ret is not None else p.status)
+        inst = [e for e in p.events if e.kind == "store" and len(e.args) == 2 and e.args[0].key() == T_KEY and e.target is not None and e.target.key() in SELF_KEYS
+                and e.args[1].key() == f"index({OWN_THREAD})"]
+        if p.status != "ret" or rs[-1] not in SELF_KEYS or not inst:
+            ok = False
+    res.add("labrea.runtime.Runtime.__enter__:installs self for the current thread and returns self", ok, m.relpath, en.lineno, f"returns {sorted(set(rs))}", nec)
     return res
 
 
@@ -332,15 +476,38 @@ def rule_LS(run: Run) -> RuleResult:
     m, rt = _rt(run)
     nec = "shared tables are accessed only under their lock (C15)"
     n_tab = 0
-    for mm, cls, fn, q in iter_functions(repo):
-        if mm is not m:
-            continue
+    fns = [(fn, q) for mm, cls, fn, q in iter_functions(repo) if mm is m]
+
+    def callers_hold_lock(q: str, seen=()) -> Optional[bool]:
+        """True when the private helper q is only ever called with the module lock held."""
+        short = q.rsplit(".", 1)[-1]
+        if not short.startswith("_") or short.startswith("__") or q in seen:
+            return False
+        refs = [r for r in _module_refs(m, short) if not (isinstance(r, ast.Name) and isinstance(r.ctx, ast.Store))]
+        sites = 0
+        for fn2, q2 in fns:
+            held2 = _with_stack(fn2)
+            for c in astu.calls_in(fn2):
+                if astu.short_name(c) == short and c.func in refs:
+                    sites += 1
+                    if "lock" not in held2.get(id(c), []) and not callers_hold_lock(q2, seen + (q,)):
+                        return False
+        return sites > 0 and sites == len(refs)
+
+    for fn, q in fns:
         held = _with_stack(fn)
+        helper_ok = None
         for x in astu.walk_no_nested(fn):
             if isinstance(x, ast.Name) and x.id == TABLE:
                 n_tab += 1
                 ok = "lock" in held.get(id(x), [])
-                res.add(f"{q}:access to {TABLE} under lock", ok, m.relpath, x.lineno, f"held: {held.get(id(x), [])}", nec)
+                how = f"held: {held.get(id(x), [])}"
+                if not ok:
+                    if helper_ok is None:
+                        helper_ok = bool(callers_hold_lock(q))
+                    ok = helper_ok
+                    how = "private helper, every call site holds the lock" if ok else how
+                res.add(f"{q}:access to {TABLE} under lock", ok, m.relpath, x.lineno, how, nec)
             if isinstance(x, ast.Name) and x.id == DEFAULTS and isinstance(x.ctx, ast.Load):
                 # writes only: subscript store / mutators
                 pm = astu.parent_map(fn)
@@ -348,7 +515,7 @@ def rule_LS(run: Run) -> RuleResult:
                 is_write = (isinstance(par, ast.Subscript) and isinstance(par.ctx, (ast.Store, ast.Del))) or \
                     (isinstance(par, ast.Attribute) and par.attr in MUT)
                 if is_write:
-                    ok = "lock" in held.get(id(x), [])
+                    ok = "lock" in held.get(id(x), []) or bool(callers_hold_lock(q))
                     res.add(f"{q}:write to {DEFAULTS} under lock", ok, m.relpath, x.lineno, f"held: {held.get(id(x), [])}", nec)
     if n_tab < 5:
         raise AnalysisError(f"only {n_tab} accesses of {TABLE} found (6 confirmed by hand)")
@@ -491,10 +658,14 @@ def rule_CW(run: Run) -> RuleResult:
     sd = ds.methods.get("set_dispatch")
     ok = False
     if sd is not None:
-        for c in astu.calls_in(sd):
-            if astu.short_name(c) == "Overloaded":
-                t = ast.unparse(c)
-                ok = "self.overloads.lookup" in t and "self.overloads.default" in t and c.args and ast.unparse(c.args[0]) == astu.param_names(sd)[0]
+        amap_s = astu.single_assign_map(sd)
+        for st in astu.walk_no_nested(sd):
+            if isinstance(st, ast.Assign) and ast.unparse(st.targets[0]) == "self.overloads":
+                v = astu.inline_helpers(astu.expand_locals(st.value, amap_s, keep=frozenset(astu.param_names(sd))), astu.typed_attr_resolver(repo, ds))
+                for c in [v] + list(astu.calls_in(v)):
+                    if isinstance(c, ast.Call) and astu.short_name(c) == "Overloaded":
+                        t = ast.unparse(c)
+                        ok = "self.overloads.lookup" in t and "self.overloads.default" in t and bool(c.args) and ast.unparse(c.args[0]) == astu.param_names(sd)[0]
     res.add("labrea.dataset.Dataset.set_dispatch:keeps registered overloads and default", ok, ds.module.relpath, sd.lineno if sd else 0, "", nec)
     return res
 
@@ -504,33 +675,36 @@ def rule_TI(run: Run) -> RuleResult:
     res = RuleResult("R-TI")
     m, rt = _rt(run)
     nec = "a thread only ever reads or writes its own slot of the thread -> runtime table (C14, C15)"
-    n = 0
-    for mm, cls, fn, q in iter_functions(run.repo):
-        if mm is not m:
+    sites = {}
+    for a in _accesses(run):
+        kt = a.key.key() if a.key is not None else None
+        own = kt == OWN_THREAD
+        params = [x.arg for x in a.fn.args.args]
+        parent_read = a.entry.endswith(".inherit") and not a.write and bool(params) and kt == params[0]
+        k = (_owner_of(run, a.event.line, a.entry), a.event.line, a.method)
+        good = own or parent_read
+        if k not in sites or (not good and sites[k][0]):
+            sites[k] = (good, kt, a, parent_read)
+    for (entry, line, method), (good, kt, a, parent_read) in sorted(sites.items()):
+        shown = "the current thread" if kt == OWN_THREAD else (kt or "no key (whole table)")
+        res.add(f"{entry}:{TABLE} indexed by {shown}", good, m.relpath, line,
+                ("write" if a.write else "read") + f" ({method}) keyed by {shown}" + (" (the parent's slot is only read)" if parent_read else ""), nec)
+    if len(sites) < 5:
+        raise AnalysisError(f"only {len(sites)} keyed accesses of {TABLE} found")
+    # no other module reaches into the table
+    for mm in run.repo.modules.values():
+        if mm is m:
             continue
-        tn = _thread_names(fn)
-        for x in astu.walk_no_nested(fn):
-            key = None
-            write = False
-            if isinstance(x, ast.Subscript) and isinstance(x.value, ast.Name) and x.value.id == TABLE:
-                key = x.slice
-                write = isinstance(x.ctx, (ast.Store, ast.Del))
-            elif isinstance(x, ast.Call) and isinstance(x.func, ast.Attribute) and isinstance(x.func.value, ast.Name) and x.func.value.id == TABLE and x.args:
-                key = x.args[0]
-                write = x.func.attr in ("setdefault", "pop", "__setitem__")
-            if key is None:
-                continue
-            n += 1
-            kt = ast.unparse(key)
-            own = kt == "threading.current_thread()" or kt in tn
-            parent_read = q.endswith(".inherit") and not write and kt == astu.param_names(fn, skip_self=False)[0]
-            res.add(f"{q}:{TABLE} indexed by {'the current thread' if own else kt}", own or parent_read, m.relpath, x.lineno,
-                    ("write" if write else "read") + f" keyed by {kt}" + (" (the parent's slot is only read)" if parent_read else ""), nec)
-    if n < 5:
-        raise AnalysisError(f"only {n} keyed accesses of {TABLE} found")
+        for n_ in ast.walk(mm.tree):
+            if (isinstance(n_, ast.Name) and n_.id == TABLE) or (isinstance(n_, ast.Attribute) and n_.attr == TABLE) or (isinstance(n_, ast.alias) and n_.name == TABLE):
+                res.add(f"{mm.name}:uses {TABLE} directly", False, mm.relpath, getattr(n_, "lineno", 0), "the table is private to labrea/runtime.py", nec)
+    inh = [a for a in _accesses(run) if a.entry.endswith(".inherit")]
+    ok = False
+    for a in inh:
+        params = [x.arg for x in a.fn.args.args]
+        if a.write and a.key is not None and a.key.key() == OWN_THREAD and a.value is not None and params \
+                and a.value.key().startswith(f"call:get({T_KEY},{params[0]}"):
+            ok = True
     ih = run.repo.func("labrea.runtime.inherit")
-    amap_i = astu.single_assign_map(ih.node)
-    ok = any(isinstance(s, ast.Assign) and ast.unparse(astu.expand_locals(s.targets[0], amap_i)) == f"{TABLE}[threading.current_thread()]"
-             and ast.unparse(astu.expand_locals(s.value, amap_i)).startswith(f"{TABLE}.get(parent") for s in ast.walk(ih.node))
     res.add("labrea.runtime.inherit:copies the parent's current runtime into the caller's slot", ok, m.relpath, ih.node.lineno, "", nec)
     return res
